@@ -112,8 +112,13 @@ func c13Packets(c *sim.Ctx) ([]mq.Packet, []string) {
 			continue
 		}
 		if p, _, err := buildGuard(a, t); err == nil {
+			how := a.TypeName() + " built"
+			if t.Bool(1, 6) {
+				afterFailedDecode(c, p)
+				how += ", then receiver of a decode of a damaged body"
+			}
 			ps = append(ps, p)
-			hows = append(hows, a.TypeName()+" built")
+			hows = append(hows, how)
 		}
 	}
 	if t.Bool(1, 150) {
